@@ -137,6 +137,7 @@ impl Generator
 		self.constants.clear();
 		self.global_variables.clear();
 		self.global_functions.clear();
+		self.used_intrinsics.clear();
 		self.local_parameters.clear();
 		self.local_variables.clear();
 		self.local_labeled_blocks.clear();
